@@ -17,6 +17,29 @@ Streams (all randomness from run.seed; case counts fixed per tier):
                 vs an independent object-graph walk (clause: every knob-bearing quantizer, each once);
                 tiny model.fit runs: hook order, factors, and every quantizer of the model holds the
                 applied factor afterwards.
+  E  alias      three real quantizers of one class (every pair of storages: python number / tf.Variable,
+                built / unbuilt) and two caller-owned tf.Variables under interleaved histories — one source
+                variable pushed to several quantizers, then number updates of one of them, updates from
+                another variable, the caller assigning to the source, copying another quantizer's attribute,
+                rebuilding, probe calls — against `Sys.step` (state of every quantizer and variable after every
+                operation); clause oracle with its own bookkeeping: after every step every quantizer's
+                factor (attribute, and the output of every probe call) is the last value written to THAT
+                quantizer and no caller-owned variable was modified by qkeras.
+  A2 lattice    every knob-bearing class over its OPTION LATTICE (quantized_relu: bits/integer x leaky slope x
+                is_quantized_clip x relu_upper_bound none / on the grid / off the grid above and below half a step
+                / above the largest code / 0.0 / np.float32 / python int; quantized_relu_po2 and quantized_po2:
+                max_value a power of two or not x slope x quadratic_approximation; quantized_hswish: relu_shift x
+                relu_upper_bound; quantized_bits / quantized_linear: symmetric x keep_negative; stochastic rounding
+                outside training; sigmoid-shaped relu) on inputs straddling every bound in steps of 1/32 of the
+                quantization step: out(f) = surrogate + f*(quantized - surrogate), out(f) = out(0) + f*(out(1) -
+                out(0)) in exact rationals wherever the float32 evaluation is exact (decided independently of the
+                model) and within the stated tolerance elsewhere; quantized_relu additionally against the Lean
+                model of the WHOLE call (`reluNoise`: x_u, xq with the relu_upper_bound pass, mix) from the input.
+  F  reuse      ONE quantizer object used many times (tensors of rank 1-5, factor updates in every argument form,
+                use_ste / use_variables / relu option attributes changed between calls, QActivation route): the
+                k-th use equals a fresh object in the same configuration and interpolates; every argument form of
+                the factor (python int, numpy scalars, 0-d arrays, tf.constant) through constructor and update API;
+                the module-level sigmoid switch in every order around construction and use (default restored).
 """
 import itertools
 import fractions
@@ -66,9 +89,10 @@ def _sur_relu_po2(cfg, x):
 
 def _sur_hswish(cfg, x):
   x = x.astype(np.float32)
-  shift = (x + np.float32(3.0)).astype(np.float32)
-  relu = np.where(shift <= np.float32(6.0), np.maximum(shift, np.float32(0)), np.float32(6.0)).astype(np.float32)
-  return ((x * relu).astype(np.float32) / np.float32(6.0)).astype(np.float32)
+  sh, ub = np.float32(cfg.get("relu_shift", 3)), np.float32(cfg.get("relu_upper_bound", 6))
+  shift = (x + sh).astype(np.float32)
+  relu = np.where(shift <= ub, np.maximum(shift, np.float32(0)), ub).astype(np.float32)
+  return ((x * relu).astype(np.float32) / ub).astype(np.float32)
 
 
 # (label, class name, kwargs, surrogate, form)
@@ -286,6 +310,260 @@ def stream_mix(run, tier, Q, tf, rng):
         break
   run.extra["mix_elements"] = n_elem
   run.extra["mix_exact_fraction_on_dyadic_f"] = round(n_exact / max(1, n_elem), 4)
+
+
+# --------------------------------------------------------------------------- stream A2 (option lattice)
+
+def _is_f32(fr):
+  return core.frac(np.float32(float(fr))) == fr
+
+
+def _chain_exact(s, q, f, fname):
+  """independent of the model: every intermediate of the float32 evaluation of the mixing expression is a
+  float32 value (f = the effective float32 factor, dyadic)"""
+  if fname in ("ste", "linear"):
+    d = q - s
+    return _is_f32(d) and _is_f32(f * d) and _is_f32(s + f * d)
+  om = 1 - f
+  return _is_f32(om) and _is_f32(om * s) and _is_f32(f * q) and _is_f32(om * s + f * q)
+
+
+def _lattice_configs():
+  """(label, class, kwargs, surrogate, form, thresholds in x, step, relu model cfg or None).
+  Option lattices of every knob-bearing class; thresholds = every x at which the unquantized activation or
+  the quantized value changes regime (bounds, saturation edges), inputs straddle each of them."""
+  out = []
+  # ---- quantized_relu: (bits, integer) x leaky slope x is_quantized_clip x relu_upper_bound on / off the grid
+  for bits, integer in ((2, 2), (4, 1), (3, 0), (6, 2), (2, 5)):
+    for slope in (0.0, 0.25, 0.5):       # the constructor asserts a power-of-two slope
+      nsb = bits - (1 if slope != 0.0 else 0)
+      if nsb < 1:
+        continue
+      step = 2.0 ** (integer - nsb)
+      hi = 2 ** nsb - 1
+      k = max(1, hi // 2)
+      ubs = [("none", None), ("ongrid", k * step), ("off_hi", (k + 0.6) * step), ("off_lo", (k + 0.3) * step),
+             ("above", (hi + 2.5) * step), ("zero", 0.0), ("f32", np.float32((k + 0.85) * step)), ("int", 6)]
+      for qclip in (True, False):
+        for uname, ub in ubs:
+          if qclip and uname not in ("none", "off_hi"):
+            continue      # is_quantized_clip has precedence: the bound must be ignored
+          if uname == "int" and not (bits, integer) in ((2, 5), (6, 2)):
+            continue
+          if (bits, integer) in ((3, 0), (6, 2), (2, 5)) and slope != 0.0 and uname not in ("off_hi", "int"):
+            continue
+          kw = dict(bits=bits, integer=integer, negative_slope=slope, is_quantized_clip=qclip)
+          if ub is not None:
+            kw["relu_upper_bound"] = ub
+          thr = [hi * step, 0.0] + ([float(ub)] if ub is not None else [])
+          rcfg = {"bits": bits, "integer": integer, "slope_log": {0.0: None, 0.25: 2, 0.5: 1}[slope],
+                  "upper": None if ub is None else core.rj(np.float32(ub)), "qclip": qclip}
+          out.append(("relu_%d_%d_s%s_%s_ub_%s" % (bits, integer, slope, "qclip" if qclip else "noclip", uname),
+                      "quantized_relu", kw, _sur_relu, "two", thr, step, rcfg,
+                      "%s_ub_%s%s" % ("qclip" if qclip else "noclip", uname, "_leaky" if slope else "")))
+  # ---- non-default routes that must not change the mix: stochastic rounding outside training (deterministic),
+  #      the sigmoid-shaped relu (x_u is still the plain activation)
+  for kw, okey in ((dict(bits=4, integer=1, use_stochastic_rounding=True), "stochastic_inference"),
+                   (dict(bits=4, integer=1, use_sigmoid=1), "use_sigmoid"),
+                   (dict(bits=6, integer=2, use_sigmoid=1, negative_slope=0.25), "use_sigmoid_leaky"),
+                   (dict(bits=4, integer=1, use_sigmoid=1, is_quantized_clip=False, relu_upper_bound=1.45),
+                    "use_sigmoid_noclip_ub_off_hi")):
+    nsb = kw["bits"] - (1 if kw.get("negative_slope") else 0)
+    st = 2.0 ** (kw["integer"] - nsb)
+    out.append(("relu_" + okey, "quantized_relu", kw, _sur_relu, "two",
+                [(2 ** nsb - 1) * st, 0.0, float(kw.get("relu_upper_bound", 1.0))], st, None, okey))
+  out.append(("bits_stochastic_inference", "quantized_bits", dict(bits=4, integer=0, symmetric=1, use_stochastic_rounding=True),
+              _sur_id, "two", [1.0, -1.0, 0.0], 0.125, None, "stochastic_inference"))
+  out.append(("po2_stochastic_inference", "quantized_po2", dict(bits=4, max_value=2, use_stochastic_rounding=True),
+              _sur_id, "two", [0.0, 2.0, -2.0], 0.25, None, "stochastic_inference"))
+  # ---- quantized_relu_po2 / quantized_po2: max_value (power of two or not) x slope x quadratic_approximation
+  for bits in (4, 3):
+    for mv in (None, 2, 3, 0.3, 1.5):
+      for slope in (0.0, 0.125, 0.5):      # the constructor asserts a power-of-two slope
+        for qa in (False, True):
+          if (bits == 3 or qa) and slope == 0.5:
+            continue
+          kw = dict(bits=bits, negative_slope=slope, quadratic_approximation=qa)
+          if mv is not None:
+            kw["max_value"] = mv
+          thr = [0.0] + ([float(mv)] if mv is not None else [2.0])
+          out.append(("relu_po2_%d_mv%s_s%s_qa%d" % (bits, mv, slope, qa), "quantized_relu_po2", kw, _sur_relu_po2,
+                      "two", thr, (mv or 2.0) / 8.0, None, "max_value_%s%s%s" % (mv, "_leaky" if slope else "",
+                                                                                  "_quadratic" if qa else "")))
+      for qa in (False, True):
+        kw = dict(bits=bits, quadratic_approximation=qa)
+        if mv is not None:
+          kw["max_value"] = mv
+        out.append(("po2_%d_mv%s_qa%d" % (bits, mv, qa), "quantized_po2", kw, _sur_id, "two",
+                    [0.0, float(mv or 2.0), -float(mv or 2.0)], (mv or 2.0) / 8.0, None,
+                    "max_value_%s%s" % (mv, "_quadratic" if qa else "")))
+  # ---- quantized_hswish: relu_shift x relu_upper_bound
+  for sh, ub in ((3, 6), (2, 4), (3, 5.5), (1, 8)):
+    for bits, integer in ((8, 2), (4, 1)):
+      kw = dict(bits=bits, integer=integer, relu_shift=sh, relu_upper_bound=ub)
+      out.append(("hswish_%d_%d_sh%s_ub%s" % (bits, integer, sh, ub), "quantized_hswish", kw, _sur_hswish, "two",
+                  [-float(sh), float(ub - sh), 0.0], 2.0 ** (integer - bits + 1), None, "shift_%s_ub_%s" % (sh, ub)))
+  # ---- quantized_bits / quantized_linear: saturation edges
+  for bits, integer, sym, kn in ((4, 0, 1, True), (4, 1, 0, True), (3, 1, 0, False), (2, 0, 1, True), (5, 2, 0, True)):
+    step = 2.0 ** (integer - bits + int(kn))
+    kw = dict(bits=bits, integer=integer, symmetric=sym, keep_negative=kn)
+    out.append(("bits_%d_%d_sym%d_kn%d" % (bits, integer, sym, kn), "quantized_bits", kw, _sur_id, "two",
+                [2.0 ** integer, -(2.0 ** integer), 0.0], step, None, "sym%d_kn%d" % (sym, kn)))
+    out.append(("linear_%d_%d_sym%d_kn%d" % (bits, integer, sym, kn), "quantized_linear",
+                dict(bits=bits, integer=integer, symmetric=sym, keep_negative=kn), _sur_id, "linear",
+                [2.0 ** integer, -(2.0 ** integer), 0.0], step, None, "sym%d_kn%d" % (sym, kn)))
+  return out
+
+
+def _rat_f64(ps):
+  """protocol rationals -> float64 array (exact for float32 values: python int / int is correctly rounded)"""
+  return np.array([int(p[0]) / int(p[1]) for p in ps], dtype=np.float64)
+
+
+def _is32(v):
+  return v.astype(np.float32).astype(np.float64) == v
+
+
+def _chain_exact_np(s, q, f, fname):
+  """vectorised `_chain_exact` on float64 copies of float32 vectors (every float64 operation below is exact
+  when the previous mask holds: products of two 24-bit significands, sums of float32 values of similar size)"""
+  if fname in ("ste", "linear"):
+    d = q - s
+    m = _is32(d)
+    fd = f * d
+    m &= _is32(fd)
+    return m & _is32(s + fd)
+  om = 1.0 - f
+  a, b = om * s, f * q
+  return bool(_is32(np.array([om]))[0]) & _is32(a) & _is32(b) & _is32(a + b)
+
+
+def stream_lattice(run, tier, Q, tf, rng):
+  """every knob-bearing class over its option lattice, inputs straddling every bound: the output is affine
+  in f between the unquantized activation and the quantized value."""
+  cfgs = _lattice_configs()
+  fs = [0.0, 0.25, 0.5, 0.75, 1.0, 0.3, 0.9]
+  lines, rlines, groups = [], [], []
+  for label, cname, kw, sur, form, thr, step, rcfg, okey in cfgs:
+    pts = []
+    for ti, b in enumerate(thr):
+      fine = ti == len(thr) - 1 or cname != "quantized_relu"     # the last threshold of a relu config is its bound
+      pts += [b + j * step / 32.0 for j in (range(-36, 37) if fine else range(-32, 33, 4))]
+    pts += [j / 4.0 for j in range(-12, 13)] + [7.3, -7.3, 100.0, 1e-3]
+    pts += [float(v) for v in rng.uniform(-1.5, 1.5, size=6) * (max(abs(t) for t in thr) + step)]
+    x = np.unique(np.array(pts, dtype=np.float32))
+    s_np = sur(kw, x)
+    xq = _xq_ref(Q, cname, kw, form, x)
+    for use_ste in _forms(form):
+      fname = _form_name(form, use_ste)
+      ste_kw = {} if use_ste is None else {"use_ste": use_ste}
+      cases = []
+      for f in fs:
+        for route in ["ctor_py"] + (["upd_var"] if f in (0.5, 0.3) else []):
+          if route == "ctor_py":
+            q = _mk(Q, cname, kw, qnoise_factor=f, **ste_kw)
+          else:
+            q = _mk(Q, cname, kw, use_variables=True, **ste_kw)
+            _call(q, x[:1])
+            q.update_qnoise_factor(np.float32(f))
+          y = _call(q, x)
+          cases.append((f, route, _obs(tf, q), y))
+      # model tie on three of the nine (factor, route) cases per group (the float32 evaluation of the mix for
+      # arbitrary s, q is stream A's business); the clause oracle below judges all nine
+      tied = [ci for ci, (f, route, _, _) in enumerate(cases)
+              if (f, route) in ((0.5, "ctor_py"), (0.3, "upd_var"), (0.9, "ctor_py"))]
+      stores = [{"store": cases[ci][2]["store"], "v": cases[ci][2]["v"]} for ci in tied]
+      if rcfg is not None:
+        rlines.append({"op": "relu_noise", "cfg": rcfg, "form": fname, "stores": stores, "x": core.enc_list(x)})
+      else:
+        lines.append({"op": "mix_many", "form": fname, "s": core.enc_list(s_np), "q": core.enc_list(xq),
+                      "stores": stores})
+      groups.append((label, cname, kw, fname, x, s_np, xq, cases, rcfg is not None, tied, okey))
+    run.count("lattice_%s" % cname)
+  outs = iter(core.run_driver("C07", lines))
+  routs = iter(core.run_driver("C07", rlines))
+  n_exact = n_elem = n_band = 0
+  for (label, cname, kw, fname, x, s_np, xq, cases, has_relu, tied, okey) in groups:
+    out = None if has_relu else next(outs)
+    kwj = {k: (float(v) if isinstance(v, np.floating) else v) for k, v in kw.items()}
+    s64, q64 = s_np.astype(np.float64), xq.astype(np.float64)
+    ends = {f: y.astype(np.float64) for f, route, o, y in cases if route == "ctor_py" and f in (0.0, 1.0)}
+    o0, o1 = ends[0.0], ends[1.0]
+    rout = next(routs) if has_relu else None
+    if rout is not None:
+      # quantized_relu in full: x_u and xq from the INPUT through the Lean model of the whole call
+      run.compared += 2
+      n_band += sum(int(v) for v in rout["clamp_after_differs"])
+      for name, real, mod in (("x_u", s64, _rat_f64(rout["s"])), ("xq", q64, _rat_f64(rout["q"]))):
+        if not np.array_equal(real, mod):
+          i = int(np.flatnonzero(real != mod)[0])
+          run.disagree("lattice-relu-%s" % name, {"cfg": label, "kwargs": kwj, "x": float(x[i])},
+                       float(real[i]), float(mod[i]))
+    for ci, (f, route, o, y) in enumerate(cases):
+      fc = _fclass(f)
+      run.case(("lattice", label, fname, route, repr(f)),
+               sample={"cfg": label, "kwargs": kwj, "form": fname, "f": f, "n_inputs": int(len(x))}
+               if len(run.samples) < 8 and "off_hi" in label and f == 0.5 and route == "ctor_py" else None)
+      run.compared += 1
+      run.count("lattice_%s_f%s" % (fname, fc))
+      y64 = y.astype(np.float64)
+      mirrored = ci in tied      # the model was run on this case and agrees (set to False below if it does not)
+      if ci in tied:
+        ti = tied.index(ci)
+        stream, ym = (("lattice-relu-out", _rat_f64(rout["ys"][ti])) if rout is not None
+                      else ("lattice-mix", _rat_f64(out["ys"][ti])))
+        if not np.array_equal(y64, ym):
+          i = int(np.flatnonzero(y64 != ym)[0])
+          run.disagree(stream, {"cfg": label, "kwargs": kwj, "form": fname, "route": route, "f": f, "x": float(x[i]),
+                                "s": float(s_np[i]), "xq": float(xq[i]), "n_bad": int(np.sum(y64 != ym))},
+                       float(y[i]), float(ym[i]))
+          mirrored = False
+      # ---- clause oracle: float64 screen (exact where it matters), every suspect re-judged in exact rationals
+      f64 = float(np.float32(f))
+      n_elem += len(x)
+      want = s64 + f64 * (q64 - s64)
+      want2 = o0 + f64 * (o1 - o0)
+      tolf = float(TOL_REL) * (1.0 - 1e-9)
+      if fc == "0":
+        ok = y64 == s64
+      else:
+        ok = np.abs(y64 - want) <= tolf * (np.abs(s64) + np.abs(q64))
+        if fc in ("1", "dyadic"):
+          ex = _chain_exact_np(s64, q64, f64, fname)
+          n_exact += int(np.sum(ex))
+          ok = np.where(ex, y64 == want, ok)
+      ok &= np.abs(y64 - want2) <= tolf * (np.abs(o0) + np.abs(o1))
+      for i in np.flatnonzero(~ok)[:4]:
+        i = int(i)
+        f_eff = core.frac(np.float32(f))
+        yi, s_i, q_i = core.frac(y[i]), core.frac(s_np[i]), core.frac(xq[i])
+        a0, a1 = core.frac(o0[i]), core.frac(o1[i])
+        w1, w2 = s_i + f_eff * (q_i - s_i), a0 + f_eff * (a1 - a0)
+        if fc == "0":
+          good, clause, exp = yi == s_i, "f0_returns_surrogate", s_i
+        elif fc in ("1", "dyadic") and _chain_exact(s_i, q_i, f_eff, fname):
+          good, clause, exp = yi == w1, ("f1_returns_quantized" if fc == "1" else "interpolates_exact"), w1
+        else:
+          good = abs(yi - w1) <= TOL_REL * (abs(s_i) + abs(q_i))
+          clause, exp = ("f1_returns_quantized" if fc == "1" else "interpolates_tol"), w1
+        if good and abs(yi - w2) > TOL_REL * (abs(a0) + abs(a1)):
+          good, clause, exp = False, "affine_in_f_between_own_f0_and_f1", w2
+        if not good:
+          run.violate(clause, {"cls": cname, "options": okey, "form": fname},
+                      {"cfg": label, "x": float(x[i]), "f": f, "route": route, "kwargs": kwj, "surrogate": float(s_np[i]),
+                       "quantized": float(xq[i]), "out_f0": float(o0[i]), "out_f1": float(o1[i]),
+                       "observed": float(y[i]), "expected": float(exp),
+                       "replay": "%s(**%r, qnoise_factor=%r%s)(%r) = %r, expected %r"
+                                 % (cname, kwj, f, "" if fname == "linear" else ", use_ste=%s" % (fname == "ste"),
+                                    float(x[i]), float(y[i]), float(exp))},
+                      mirrored=mirrored)
+          break
+  run.count("lattice_relu_inputs_where_clip_after_mix_would_differ", n_band)
+  run.extra["lattice_configs"] = len(cfgs)
+  run.extra["lattice_elements"] = n_elem
+  run.extra["lattice_exact_fraction"] = round(n_exact / max(1, n_elem), 4)
+  if n_band == 0:
+    raise core.InfraError("lattice generator no longer reaches the band below an off-grid relu_upper_bound")
 
 
 # --------------------------------------------------------------------------- stream B
@@ -705,8 +983,15 @@ def stream_sched(run, tier, Q, tf, rng):
     start, finish, exponent, uf, ft, initial = c
     use_ste = bool((len(lines) // 3) % 2)
     layers = models[mname]()
-    cb = QNoiseScheduler(start=start, finish=finish, freq_type=ft, update_freq=uf,
-                         initial_step_or_epoch=initial, exponent=exponent, use_ste=use_ste)
+    # argument forms: the same configuration as python ints / floats, as numpy integer scalars, and with an
+    # integral exponent given as a python int — same value, same schedule (the model sees the values only)
+    aform = len(lines) % 3
+    a_int = (lambda v: np.int64(v)) if aform == 1 else (lambda v: v)
+    a_exp = int(exponent) if (aform == 2 and float(exponent).is_integer()) else (
+        np.float64(exponent) if aform == 1 else exponent)
+    run.count("sched_argument_form_%s" % ("python", "numpy_scalars", "int_exponent")[aform])
+    cb = QNoiseScheduler(start=a_int(start), finish=a_int(finish), freq_type=ft, update_freq=a_int(uf),
+                         initial_step_or_epoch=a_int(initial), exponent=a_exp, use_ste=use_ste)
     m = _Stub()
     m.layers = layers
     cb.model = m
@@ -720,7 +1005,7 @@ def stream_sched(run, tier, Q, tf, rng):
     cfgj = {"start": start, "finish": finish, "step_mode": ft == "step", "update_freq": uf,
             "initial": initial, "use_ste": use_ste}
     lines.append({"op": "sched", "cfg": cfgj, "layers": ljson, "events": ev,
-                  "table": _pw_table(start, finish, exponent, initial, initial + n_ticks + 1)})
+                  "table": _pw_table(start, finish, a_exp, initial, initial + n_ticks + 1)})
     meta.append((c, mname, ev, kind, steps, use_ste, final_all))
   outs = core.run_driver("C07", lines)
   n_updates = 0
@@ -1158,6 +1443,616 @@ def stream_layers(run, tier, Q, tf, rng):
           break
 
 
+# --------------------------------------------------------------------------- stream E
+
+_KINDS = ("py_unbuilt", "py_built", "var_built", "var_unbuilt")
+_NUMV = ("float", "np.float64", "np.float32", "tf.constant")
+
+
+def _num_arg(tf, v, variant):
+  """(the object handed to update_qnoise_factor, the exact value it carries)"""
+  if variant == 0:
+    return float(v), core.frac(float(v))
+  if variant == 1:
+    return np.float64(v), core.frac(float(v))
+  if variant == 2:
+    return np.float32(v), core.frac(np.float32(v))
+  return tf.constant(v, dtype=tf.float32), core.frac(np.float32(v))
+
+
+def _mop_line(op, exact):
+  k = op[0]
+  if k == "upd_caller":
+    return {"op": "upd_caller", "i": op[1], "k": op[2]}
+  if k == "upd_quant":
+    return {"op": "upd_quant", "i": op[1], "j": op[2]}
+  if k == "assign":
+    return {"op": "assign", "k": op[1], "v": core.rj(op[2])}
+  o = op[2]
+  if o[0] == "update":
+    return {"op": "local", "i": op[1], "o": {"op": "update", "v": core.rj(exact)}}
+  return {"op": "local", "i": op[1], "o": _op_line(o)}
+
+
+def _mop_text(op):
+  """the operation as python source (replay text of a violation)"""
+  k = op[0]
+  if k == "upd_caller":
+    return "q%d.update_qnoise_factor(w%d)" % (op[1], op[2])
+  if k == "upd_quant":
+    return "q%d.update_qnoise_factor(q%d.qnoise_factor)" % (op[1], op[2])
+  if k == "assign":
+    return "w%d.assign(%r)" % (op[1], op[2])
+  i, o = op[1], op[2]
+  if o[0] == "update":
+    return "q%d.update_qnoise_factor(%s(%r))" % (i, _NUMV[o[2]], o[1])
+  if o[0] == "update_from_var":
+    return "q%d.update_qnoise_factor(tf.Variable(%r))" % (i, o[1])
+  if o[0] == "build":
+    return "q%d.build(use_variables=%r)" % (i, o[1])
+  if o[0] == "set_use_vars":
+    return "q%d.use_variables = %r" % (i, o[1])
+  return "q%d(x)" % i
+
+
+def _op_kind(op):
+  k = op[0]
+  if k == "upd_caller":
+    return "update_from_callers_variable"
+  if k == "upd_quant":
+    return "update_from_quantizer_attribute"
+  if k == "assign":
+    return "assign_to_callers_variable"
+  return {"update": "number_update", "update_from_var": "update_from_fresh_variable", "build": "build",
+          "set_use_vars": "set_use_variables", "call": "call"}[op[2][0]]
+
+
+def _culprit(op, b):
+  """the operation after which quantizer b reads a wrong factor, relative to b (key of a violation)"""
+  if op[0] == "assign":
+    return _op_kind(op)
+  return ("own_" if op[1] == b else "other_quantizers_") + _op_kind(op)
+
+
+def _alias_histories(tier, rng, is_lin):
+  """(family, kinds of q0 q1 q2, history).  q0 = a, q1 = b, q2 = c; w0, w1 caller-owned variables.
+  Systematic part: one source variable pushed to two quantizers (every pair of storage kinds), followed by
+  each way the shared state could leak: a number update of a, an update of a from another variable, the
+  caller assigning to the source, copying a's attribute, rebuilding; c is never updated (reads its
+  constructor constant).  `C` = probe call."""
+  U = lambda i, v, var=0: ("local", i, ("update", v, var))          # noqa: E731
+  C = lambda i: ("local", i, ("call",))                             # noqa: E731
+  B = lambda i, b: ("local", i, ("build", b))                       # noqa: E731
+  A, Wq, As = (lambda i, k: ("upd_caller", i, k)), (lambda i, j: ("upd_quant", i, j)), (lambda k, v: ("assign", k, v))
+  templates = [
+      ("shared_then_number_update", [A(0, 0), A(1, 0), U(0, 1.0), C(1), C(0), U(0, 0.5, 2), C(1), C(2)]),
+      ("shared_then_assign_source", [A(0, 0), A(1, 0), As(0, 0.75), C(1), C(0), As(0, 0.0), C(0), C(2)]),
+      ("shared_then_other_variable", [A(0, 0), A(1, 0), A(0, 1), C(1), C(0), As(1, 0.125), C(0), C(1)]),
+      ("update_then_share", [A(0, 0), U(0, 1.0, 1), A(1, 0), C(1), C(0), U(1, 0.0), C(0), C(1)]),
+      ("copy_attribute_then_update_source", [A(0, 0), Wq(1, 0), U(0, 0.75), C(1), As(0, 1.0), C(1), C(0), Wq(2, 1),
+                                             U(1, 0.5, 3), C(2)]),
+      ("shared_then_rebuild", [A(0, 0), A(1, 0), B(0, True), U(0, 1.0), C(1), B(1, False), As(0, 0.5), C(1), C(0)]),
+      ("shared_attribute_only", [A(0, 0), A(1, 0), A(2, 0), U(2, 0.0), As(0, 0.625), U(0, 1.0, 2), A(2, 1)]),
+      ("probe_every_step", [A(0, 0), C(0), C(1), A(1, 0), C(0), C(1), U(0, 1.0), C(0), C(1), As(0, 0.75), C(0), C(1),
+                            A(0, 1), C(0), C(1), U(1, 0.125, 1), C(0), C(1), C(2)]),
+      ("variable_store_copy", [B(0, True), A(0, 0), Wq(1, 0), Wq(2, 0), U(0, 0.125), C(1), As(0, 1.0), U(1, 0.75, 1),
+                               C(2), C(0)]),
+  ]
+  out = []
+  for ka in _KINDS:
+    for kb in _KINDS:
+      for ti, (fam, h) in enumerate(templates):
+        kc = _KINDS[(ti + _KINDS.index(ka) + 2 * _KINDS.index(kb)) % 4]
+        out.append((fam, (ka, kb, kc), list(h)))
+  # seeded interleavings over the whole alphabet
+  vals = [0.0, 0.125, 0.25, 0.5, 0.625, 0.75, 1.0, 0.3, 0.1, 1.0 / 3.0, 0.999]
+  n_rand = 40 if tier == "quick" else 400
+  for _ in range(n_rand):
+    n = int(rng.integers(6, 11))
+    kinds = tuple(_KINDS[int(i)] for i in rng.integers(0, 4, size=3))
+    h = []
+    for _j in range(n):
+      r = int(rng.integers(0, 20))
+      i, j, k = int(rng.integers(0, 3)), int(rng.integers(0, 3)), int(rng.integers(0, 2))
+      v = vals[int(rng.integers(0, len(vals)))]
+      if r < 5:
+        h.append(A(i, k))
+      elif r < 7:
+        h.append(Wq(i, j))
+      elif r < 10:
+        h.append(As(k, v))
+      elif r < 13:
+        h.append(U(i, v, int(rng.integers(0, 4))))
+      elif r < 14:
+        h.append(("local", i, ("update_from_var", v)))
+      elif r < 16:
+        h.append(B(i, bool(rng.integers(0, 2))))
+      elif r < 17 and not is_lin:
+        h.append(("local", i, ("set_use_vars", bool(rng.integers(0, 2)))))
+      else:
+        h.append(C(i))
+    out.append(("random", kinds, h))
+  return out
+
+
+def stream_alias(run, tier, Q, tf, rng):
+  """several quantizers + caller-owned tf.Variables, interleaved histories: the factor of a quantizer is
+  private state (Sys.step / C07_multi_*)."""
+  cfg = {c[0]: c for c in CONFIGS}
+  xb = np.array([0.3125, -1.75, 0.5, 2.6875, -0.0625, 0.7], dtype=np.float32)
+  x1 = xb[:1]
+  f_init = (1.0, 0.5, 0.875)
+  w_init = (0.25, 0.375)
+  lines, meta = [], []
+  mix_lines, mix_meta = [], []
+  for label in STORAGE_CFG:
+    _, cname, kw, sur, form = cfg[label]
+    is_lin = form == "linear"
+    s_np = sur(kw, xb)
+    xq = _xq_ref(Q, cname, kw, form, xb)
+    s_fr, q_fr = [core.frac(v) for v in s_np], [core.frac(v) for v in xq]
+    if all(a == b for a, b in zip(s_fr, q_fr)):
+      raise core.InfraError("probe input does not separate surrogate and quantized value for %s" % label)
+    hists = _alias_histories(tier, rng, is_lin)
+    for hi, (fam, kinds, hist) in enumerate(hists):
+      use_ste = None if is_lin else bool(hi % 2)
+      ste_kw = {} if use_ste is None else {"use_ste": use_ste}
+      qs = []
+      for i, kind in enumerate(kinds):
+        q = _mk(Q, cname, kw, qnoise_factor=f_init[i], use_variables=kind.startswith("var"), **ste_kw)
+        if kind.endswith("_built"):
+          _call(q, x1)
+        qs.append(q)
+      ws = [tf.Variable(v, dtype=tf.float32, trainable=False) for v in w_init]
+      init = [_obs(tf, q) for q in qs]
+      # the oracle's own bookkeeping (independent of the Lean model): last value written to each quantizer,
+      # value the caller gave each of its variables
+      exp_q = [core.frac(v) for v in f_init]
+      exp_w = [core.frac(np.float32(v)) for v in w_init]
+      steps, mops, calls = [], [], []
+      verdict = None       # first clause failure of this history
+      for oi, op in enumerate(hist):
+        k = op[0]
+        exact = None
+        err = None
+        y = None
+        try:
+          if k == "upd_caller":
+            qs[op[1]].update_qnoise_factor(ws[op[2]])
+            exp_q[op[1]] = exp_w[op[2]]
+          elif k == "upd_quant":
+            qs[op[1]].update_qnoise_factor(qs[op[2]].qnoise_factor)
+            exp_q[op[1]] = exp_q[op[2]]
+          elif k == "assign":
+            ws[op[1]].assign(op[2])
+            exp_w[op[1]] = core.frac(np.float32(op[2]))
+          else:
+            i, o = op[1], op[2]
+            if o[0] == "update":
+              arg, exact = _num_arg(tf, o[1], o[2])
+              qs[i].update_qnoise_factor(arg)
+              exp_q[i] = exact
+            elif o[0] == "update_from_var":
+              qs[i].update_qnoise_factor(tf.Variable(o[1], dtype=tf.float32, trainable=False))
+              exp_q[i] = core.frac(np.float32(o[1]))
+            elif o[0] == "build":
+              qs[i].build(var_name=None, use_variables=o[1])
+            elif o[0] == "set_use_vars":
+              qs[i].use_variables = o[1]
+            else:
+              y = _call(qs[i], xb)
+        except Exception as e:  # pylint: disable=broad-except
+          err = type(e).__name__
+        mops.append(_mop_line(op, exact))
+        ob = {"qs": [_obs(tf, q) for q in qs], "ws": [core.rj(float(w.numpy())) for w in ws], "err": err}
+        steps.append(ob)
+        if y is not None:
+          calls.append((oi, op[1], y, ob["qs"][op[1]], exp_q[op[1]]))
+        # ---- clause oracle on the real objects, after every step
+        if verdict is None:
+          hist_txt = "; ".join(_mop_text(o_) for o_ in hist[:oi + 1])
+          setup = ("q0,q1,q2 = %s(**%r%s) in storage %s with qnoise_factor %s; w0,w1 = tf.Variable(%s), tf.Variable(%s)"
+                   % (cname, kw, "" if use_ste is None else ", use_ste=%s" % use_ste, list(kinds), list(f_init),
+                      w_init[0], w_init[1]))
+          if err is not None:
+            verdict = ("update_api_raises", {"op": k if k != "local" else op[2][0], "error": err},
+                       {"cfg": label, "at": oi, "error": err, "replay": setup + "; " + hist_txt})
+          for b in range(len(qs)):
+            if verdict is not None:
+              break
+            got = core.frac(np.float32(float(core.unrj(ob["qs"][b]["v"]))))
+            want = core.frac(np.float32(float(exp_q[b])))
+            if got != want:
+              aliased = [("w%d" % n) for n, w in enumerate(ws) if qs[b].qnoise_factor is w] + \
+                        [("q%d.qnoise_factor" % n) for n, q2 in enumerate(qs)
+                         if n != b and isinstance(q2.qnoise_factor, tf.Variable) and q2.qnoise_factor is qs[b].qnoise_factor]
+              verdict = ("factor_is_last_value_written_to_that_quantizer",
+                         {"victim_storage": init[b]["store"], "after": _culprit(op, b)},
+                         {"cls": cname, "cfg": label, "family": fam, "at": oi, "quantizer": "q%d" % b,
+                          "observed_qnoise_factor": float(got), "last_value_written_to_it": float(want),
+                          "attribute_is_the_same_object_as": aliased,
+                          "replay": "%s; %s  ->  q%d.qnoise_factor reads %s, the last value written to q%d is %s"
+                                    % (setup, hist_txt, b, float(got), b, float(want))})
+          for n in range(len(ws)):
+            if verdict is not None:
+              break
+            got = core.unrj(ob["ws"][n])
+            if got != exp_w[n]:
+              verdict = ("callers_variable_not_modified_by_qkeras",
+                         {"after": _op_kind(op)},
+                         {"cls": cname, "cfg": label, "family": fam, "at": oi, "variable": "w%d" % n, "observed_value": float(got),
+                          "value_the_caller_gave_it": float(exp_w[n]),
+                          "replay": "%s; %s  ->  w%d holds %s, the caller last gave it %s"
+                                    % (setup, hist_txt, n, float(got), float(exp_w[n]))})
+          if verdict is None and y is not None:
+            b = op[1]
+            f = core.frac(np.float32(float(exp_q[b])))
+            yi = [core.frac(v) for v in y]
+            for e in range(len(yi)):
+              want = s_fr[e] + f * (q_fr[e] - s_fr[e])
+              if abs(yi[e] - want) > TOL_REL * (abs(s_fr[e]) + abs(q_fr[e])):
+                verdict = ("call_uses_last_value_written_to_that_quantizer",
+                           {"victim_storage": init[b]["store"], "form": _form_name(form, use_ste)},
+                           {"cls": cname, "cfg": label, "family": fam, "at": oi, "quantizer": "q%d" % b, "x": float(xb[e]),
+                            "surrogate": float(s_np[e]), "quantized": float(xq[e]), "factor_last_written": float(f),
+                            "observed": float(y[e]), "expected": float(want),
+                            "replay": "%s; %s  ->  q%d(%s) = %s, expected s + f*(q - s) = %s with f = %s"
+                                      % (setup, hist_txt, b, float(xb[e]), float(y[e]), float(want), float(f))})
+                break
+      lines.append({"op": "multi", "qs": init, "ws": [core.rj(np.float32(v)) for v in w_init], "ops": mops})
+      meta.append((label, cname, fam, kinds, hist, init, steps, use_ste, verdict, list(exp_q)))
+      for (oi, b, y, o, f) in calls:
+        mix_lines.append({"op": "mix", "form": _form_name(form, use_ste), "s": core.enc_list(s_np),
+                          "q": core.enc_list(xq), "store": o["store"], "v": o["v"]})
+        mix_meta.append((label, fam, kinds, hist, oi, b, y))
+  outs = core.run_driver("C07", lines)
+  bad_hist = set()
+  for hidx, ((label, cname, fam, kinds, hist, init, steps, use_ste, verdict, exp_q), out) in enumerate(zip(meta, outs)):
+    htxt = "; ".join(_mop_text(o_) for o_ in hist)
+    run.case((label, kinds, use_ste, htxt),
+             sample={"cfg": label, "family": fam, "storage": list(kinds), "history": htxt,
+                     "final_factors": [float(core.unrj(o["v"])) for o in steps[-1]["qs"]],
+                     "final_variables": [float(core.unrj(v)) for v in steps[-1]["ws"]]}
+             if fam in ("shared_then_number_update", "random") and len(run.samples) < 8 and hidx % 97 == 0 else None)
+    run.compared += 1
+    run.count("alias_%s" % fam)
+    for kind in kinds:
+      run.count("alias_storage_%s" % kind)
+    bad_at = None
+    for oi, (o, m) in enumerate(zip(steps, out["steps"])):
+      a = ([(q["store"], core.unrj(q["v"]), q["built"], q["use_vars"]) for q in o["qs"]],
+           [core.unrj(v) for v in o["ws"]], o["err"] is not None)
+      b = ([(q["store"], core.unrj(q["v"]), q["built"], q["use_vars"]) for q in m["qs"]],
+           [core.unrj(v) for v in m["ws"]], False)
+      if a != b:
+        run.disagree("alias", {"cfg": label, "storage": list(kinds), "history": htxt, "at": oi,
+                               "op": _mop_text(hist[oi])},
+                     {"qs": o["qs"], "ws": o["ws"], "err": o["err"]}, m)
+        bad_at = oi
+        bad_hist.add(hidx)
+        break
+    # the oracle's bookkeeping and the model's projected history name the same "last value written"
+    run.compared += 1
+    lw = [None if v is None else core.unrj(v) for v in out["last_write"]]
+    for b in range(len(lw)):
+      if lw[b] is not None and core.frac(np.float32(float(lw[b]))) != core.frac(np.float32(float(exp_q[b]))):
+        run.disagree("alias-last-write", {"cfg": label, "history": htxt, "quantizer": b},
+                     float(exp_q[b]), float(lw[b]))
+    if verdict is not None:
+      clause, key, detail = verdict
+      run.violate(clause, key, detail, mirrored=(bad_at is None or detail["at"] < bad_at))
+  outs = core.run_driver("C07", mix_lines)
+  for (label, fam, kinds, hist, oi, b, y), out in zip(mix_meta, outs):
+    run.compared += 1
+    run.count("alias_probe_calls")
+    ym = core.dec_list(out["y"])
+    yi = [core.frac(v) for v in y]
+    if yi != ym:
+      e = [k for k in range(len(yi)) if yi[k] != ym[k]][0]
+      run.disagree("alias-call", {"cfg": label, "storage": list(kinds),
+                                  "history": "; ".join(_mop_text(o_) for o_ in hist[:oi + 1]), "x": float(xb[e])},
+                   float(y[e]), float(ym[e]))
+  run.extra["alias_histories"] = len(lines)
+
+
+# --------------------------------------------------------------------------- stream F (reuse / forms / state)
+
+_REUSE_EXTRA = [
+    ("relu_4_1_ub_offgrid", "quantized_relu", dict(bits=4, integer=1, is_quantized_clip=False, relu_upper_bound=1.45),
+     _sur_relu, "two"),
+    ("relu_4_1_sig", "quantized_relu", dict(bits=4, integer=1, use_sigmoid=1), _sur_relu, "two"),
+]
+_ARG_FORMS = {
+    "int": lambda tf, v: int(v), "np.int64": lambda tf, v: np.int64(v), "np.float32": lambda tf, v: np.float32(v),
+    "np.float64": lambda tf, v: np.float64(v), "ndarray0d": lambda tf, v: np.array(v),
+    "ndarray0d_f32": lambda tf, v: np.array(v, dtype=np.float32),
+    "tf.constant": lambda tf, v: tf.constant(v, dtype=tf.float32),
+}
+
+
+def _carried(name, v):
+  """the exact value an argument form carries"""
+  return core.frac(np.float32(v)) if name in ("np.float32", "ndarray0d_f32", "tf.constant") else core.frac(float(v))
+
+
+def _call_shaped(q, x, shape):
+  import tensorflow as tf
+  return np.asarray(q(tf.constant(x.reshape(shape), dtype=tf.float32)).numpy(), dtype=np.float32).reshape(-1)
+
+
+def stream_reuse(run, tier, Q, tf, rng):
+  """cross-cutting blind spots: (1) ONE quantizer object used many times — tensors of different shape / rank,
+  factor updates in every argument form, use_ste / use_variables / relu option attributes changed between
+  calls, handed to a QActivation layer after stand-alone use — must behave at its k-th use exactly like a
+  fresh object in the same configuration; (2) every argument form of the factor, constructor and update API;
+  (3) the module-level sigmoid switch in every order around construction and use."""
+  import qkeras
+  cfg = {c[0]: c for c in CONFIGS}
+  members = [cfg[l] for l in STORAGE_CFG + ["relu_4_1_ub", "bits_4_0_auto", "bits_5_1_alpha2"]] + _REUSE_EXTRA
+  xb = np.array([0.3125, -1.75, 0.5, 2.6875, -0.0625, 0.7, 1.4453125, 0.9375], dtype=np.float32)
+  shapes = [(8,), (2, 4), (1, 2, 4), (2, 1, 4, 1), (4, 2), (8, 1), (1, 1, 2, 2, 2)]
+  vals = [0.25, 0.75, 0.5, 0.0, 1.0, 0.3, 0.625]
+
+  def twin_out(cname, kw, form, ste, store_var, fval, shape):
+    ste_kw = {} if ste is None else {"use_ste": ste}
+    t = _mk(Q, cname, kw, qnoise_factor=fval, use_variables=store_var, **ste_kw)
+    return _call_shaped(t, xb, shape)
+
+  def xq_ref(cname, kw, form, shape):
+    if form == "linear":
+      q = _mk(Q, cname, kw)
+      q._build()
+      xx = tf.constant(xb.reshape(shape), dtype=tf.float32)
+      return np.asarray((q._scale_clip_and_round(xx, q.quantization_scale) * q.quantization_scale).numpy(),
+                        dtype=np.float32).reshape(-1)
+    return _call_shaped(_mk(Q, cname, kw, qnoise_factor=1.0, use_ste=False), xb, shape)
+
+  # ---- (1) histories on one object
+  lines, meta = [], []
+  n_hist = 2 if tier == "quick" else 8
+  for label, cname, kw0, sur, form in members:
+    is_lin = form == "linear"
+    for hi in range(n_hist):
+      for ste0 in _forms(form):
+        kw = dict(kw0)
+        ste = ste0
+        ste_kw = {} if ste is None else {"use_ste": ste}
+        f0 = [1.0, 0.5][hi % 2]
+        q = _mk(Q, cname, kw, qnoise_factor=f0, use_variables=bool(hi % 2 and hi % 3), **ste_kw)
+        init = _obs(tf, q)
+        cur = core.frac(f0)
+        # history: a probe after every reconfiguration
+        ops = []
+        n = 9 if tier == "quick" else 14
+        for j in range(n):
+          r = int(rng.integers(0, 12))
+          if r < 3:
+            ops.append(("update", vals[int(rng.integers(0, len(vals)))], int(rng.integers(0, 4))))
+          elif r < 4:
+            ops.append(("update_from_var", vals[int(rng.integers(0, len(vals)))]))
+          elif r < 6 and not is_lin:
+            ops.append(("flip_ste",))
+          elif r < 7:
+            ops.append(("build", bool(rng.integers(0, 2))))
+          elif r < 8 and not is_lin:
+            ops.append(("set_use_vars", bool(rng.integers(0, 2))))
+          elif r < 10 and cname == "quantized_relu" and not kw.get("use_sigmoid"):
+            ops.append(("set_attr",) + [("relu_upper_bound", 1.45), ("relu_upper_bound", None), ("is_quantized_clip", False),
+                                        ("is_quantized_clip", True), ("negative_slope", 0.25),
+                                        ("relu_upper_bound", 0.95)][int(rng.integers(0, 6))])
+          elif r < 11:
+            ops.append(("layer", int(rng.integers(0, len(shapes)))))
+          ops.append(("call", int(rng.integers(0, len(shapes)))))
+        steps, sops = [], []
+        verdict = None
+        prev = "construction"
+        for oi, op in enumerate(ops):
+          k = op[0]
+          err = None
+          y = None
+          try:
+            if k == "update":
+              arg, exact = _num_arg(tf, op[1], op[2])
+              q.update_qnoise_factor(arg)
+              cur = exact
+              sops.append({"op": "update", "v": core.rj(exact)})
+            elif k == "update_from_var":
+              q.update_qnoise_factor(tf.Variable(op[1], dtype=tf.float32, trainable=False))
+              cur = core.frac(np.float32(op[1]))
+              sops.append(_op_line(op))
+            elif k == "flip_ste":
+              ste = not ste
+              q.use_ste = ste
+            elif k == "build":
+              q.build(var_name=None, use_variables=op[1])
+              sops.append(_op_line(op))
+            elif k == "set_use_vars":
+              q.use_variables = op[1]
+              sops.append(_op_line(op))
+            elif k == "set_attr":
+              setattr(q, op[1], op[2])
+              if op[2] is None:
+                kw.pop(op[1], None)
+              else:
+                kw[op[1]] = op[2]
+            elif k == "layer":
+              lay = qkeras.QActivation(q)
+              y = np.asarray(lay(tf.constant(xb.reshape(shapes[op[1]]), dtype=tf.float32)).numpy(),
+                             dtype=np.float32).reshape(-1)
+              sops.append({"op": "call"})
+            else:
+              y = _call_shaped(q, xb, shapes[op[1]])
+              sops.append({"op": "call"})
+          except Exception as e:  # pylint: disable=broad-except
+            err = type(e).__name__ + ": " + str(e)[:120]
+          if k not in ("flip_ste", "set_attr"):
+            o = _obs(tf, q)
+            o["raised"] = err is not None
+            steps.append(o)
+          if verdict is None and err is not None:
+            verdict = ("reused_object_raises", {"cls": cname, "op": k, "after": prev},
+                       {"cfg": label, "ops": [list(o_) for o_ in ops[:oi + 1]], "error": err,
+                        "replay": "q = %s(**%r, qnoise_factor=%r%s); %s -> raises %s (call / layer operands: x=%r "
+                                  "reshaped to shapes[i], shapes=%r)"
+                                  % (cname, kw0, f0, "" if ste0 is None else ", use_ste=%s" % ste0,
+                                     "; ".join(str(o_) for o_ in ops[:oi + 1]), err, xb.tolist(), shapes)})
+          if verdict is None and y is not None:
+            shape = shapes[op[1]]
+            store_var = isinstance(q.qnoise_factor, tf.Variable)
+            fval = float(np.float32(float(cur))) if store_var else float(cur)
+            yt = twin_out(cname, kw, form, ste, store_var, fval, shape)
+            replay = ("q = %s(**%r, qnoise_factor=%r%s); %s -> element-wise on x=%r reshaped to %r"
+                      % (cname, kw0, f0, "" if ste0 is None else ", use_ste=%s" % ste0,
+                         "; ".join(str(o_) for o_ in ops[:oi + 1]), xb.tolist(), shape))
+            if y.shape != yt.shape:
+              verdict = ("kth_use_equals_fresh_object", {"cls": cname, "route": k, "after": prev},
+                         {"cfg": label, "observed_number_of_elements": int(y.size), "fresh_object": int(yt.size),
+                          "input_shape": list(shape), "factor_now": float(cur), "use_ste_now": ste, "replay": replay})
+            elif not np.array_equal(y, yt):
+              e = int(np.flatnonzero(y != yt)[0])
+              verdict = ("kth_use_equals_fresh_object", {"cls": cname, "route": k, "after": prev},
+                         {"cfg": label, "x": float(xb[e]), "observed": float(y[e]), "fresh_object": float(yt[e]),
+                          "configuration_now": {kk: (float(v) if isinstance(v, np.floating) else v) for kk, v in kw.items()},
+                          "factor_now": float(cur), "use_ste_now": ste, "replay": replay})
+            else:
+              s_np = sur(kw, xb)
+              xq = xq_ref(cname, kw, form, shape)
+              f = core.frac(np.float32(float(cur)))
+              for e in range(len(xb)):
+                s_i, q_i, y_i = core.frac(s_np[e]), core.frac(xq[e]), core.frac(y[e])
+                if abs(y_i - (s_i + f * (q_i - s_i))) > TOL_REL * (abs(s_i) + abs(q_i)):
+                  verdict = ("kth_use_interpolates", {"cls": cname, "route": k, "after": prev},
+                             {"cfg": label, "x": float(xb[e]), "observed": float(y[e]), "surrogate": float(s_np[e]),
+                              "quantized": float(xq[e]), "factor_now": float(f),
+                              "expected": float(s_i + f * (q_i - s_i)), "replay": replay})
+                  break
+          if k != "call":
+            prev = k if k != "set_attr" else "set_" + op[1]
+          elif k == "call":
+            prev = "call_rank%d" % len(shapes[op[1]])
+        lines.append({"op": "storage", "init": init, "ops": sops})
+        meta.append((label, cname, ops, init, steps, verdict))
+  outs = core.run_driver("C07", lines)
+  for (label, cname, ops, init, steps, verdict), out in zip(meta, outs):
+    run.case(("reuse", label, init["store"], init["use_vars"], repr(ops)),
+             sample={"cfg": label, "history_on_one_object": [list(o_) for o_ in ops]} if len(run.samples) < 8 and
+             label == "relu_4_1_ub_offgrid" else None)
+    run.compared += 1
+    run.count("reuse_histories")
+    for op in ops:
+      run.count("reuse_op_%s" % (op[0] if op[0] != "call" else "call_rank%d" % len(shapes[op[1]])))
+    mirrored = True
+    for oi, (o, m) in enumerate(zip(steps, out["steps"])):
+      a = (o["store"], core.unrj(o["v"]), o["built"], o["use_vars"], o["raised"])
+      b = (m["store"], core.unrj(m["v"]), m["built"], m["use_vars"], m["raised"])
+      if a != b:
+        run.disagree("reuse-storage", {"cfg": label, "init": init, "ops": [list(o_) for o_ in ops], "at": oi}, o, m)
+        mirrored = False
+        break
+    if verdict is not None:
+      run.violate(verdict[0], verdict[1], verdict[2], mirrored=mirrored)
+
+  # ---- (2) argument forms of the factor: same value => same output as the python-float twin
+  n_forms = 0
+  for label in STORAGE_CFG:
+    _, cname, kw, sur, form = cfg[label]
+    for ste in _forms(form):
+      ste_kw = {} if ste is None else {"use_ste": ste}
+      for v in (1.0, 0.0, 0.25, 0.3):
+        for name, fn in _ARG_FORMS.items():
+          if name in ("int", "np.int64") and v not in (0.0, 1.0):
+            continue
+          if v == 0.0 and name not in ("int", "np.int64", "ndarray0d"):
+            continue
+          car = _carried(name, v)
+          for route in ("ctor", "upd_py", "upd_var"):
+            n_forms += 1
+            run.case(("form", label, ste, v, name, route))
+            run.compared += 1
+            run.count("form_%s_%s" % (name, route))
+            key = {"form": name, "route": route}
+            try:
+              if route == "ctor":
+                q = _mk(Q, cname, kw, qnoise_factor=fn(tf, v), **ste_kw)
+              elif route == "upd_py":
+                q = _mk(Q, cname, kw, **ste_kw)
+                q.update_qnoise_factor(fn(tf, v))
+              else:
+                q = _mk(Q, cname, kw, use_variables=True, **ste_kw)
+                _call(q, xb[:1])
+                q.update_qnoise_factor(fn(tf, v))
+              y = _call(q, xb)
+              got = core.unrj(_obs(tf, q)["v"])
+            except Exception as e:  # pylint: disable=broad-except
+              run.violate("argument_form_raises", dict(key, error=type(e).__name__),
+                          {"cfg": label, "value": v, "error": repr(e)[:200],
+                           "replay": "%s(**%r) with qnoise_factor %s(%r) through %s" % (cname, kw, name, v, route)},
+                          mirrored=False)
+              continue
+            store_var = route == "upd_var"
+            yt = _call(_mk(Q, cname, kw, qnoise_factor=float(car), use_variables=store_var, **ste_kw), xb)
+            want = core.frac(np.float32(float(car))) if store_var else car
+            if not np.array_equal(y, yt) or core.frac(np.float32(float(got))) != core.frac(np.float32(float(want))):
+              e = int(np.flatnonzero(y != yt)[0]) if not np.array_equal(y, yt) else 0
+              run.violate("argument_form_same_value_same_behaviour", key,
+                          {"cfg": label, "value": v, "x": float(xb[e]), "observed": float(y[e]),
+                           "python_float_twin": float(yt[e]), "factor_read_back": float(got),
+                           "replay": "%s(**%r) with qnoise_factor %s(%r) through %s, use_ste=%s"
+                                     % (cname, kw, name, v, route, ste)}, mirrored=False)
+  run.extra["argument_form_cases"] = n_forms
+
+  # ---- (3) module-level sigmoid switch around a sigmoid-shaped relu, every order; default restored
+  sig_cfgs = [dict(bits=4, integer=1, use_sigmoid=1), dict(bits=6, integer=2, use_sigmoid=1, negative_slope=0.25)]
+  xs = np.array([j / 8.0 for j in range(-20, 21)], dtype=np.float32)
+  try:
+    for kw in sig_cfgs:
+      for ste in (True, False):
+        for first, second in (("hard", "smooth"), ("smooth", "real"), ("real", "hard"), ("hard", "hard")):
+          for order in ("switch_construct_use", "construct_switch_use", "use_switch_use"):
+            run.case(("sigmoid", repr(kw), ste, first, second, order))
+            run.compared += 1
+            run.count("sigmoid_state_%s" % order)
+            Q.set_internal_sigmoid(first)
+            objs = {f: Q.quantized_relu(qnoise_factor=f, use_ste=ste, **kw) for f in (0.0, 0.5, 0.3, 1.0)}
+            if order == "switch_construct_use":
+              Q.set_internal_sigmoid(second)
+              objs = {f: Q.quantized_relu(qnoise_factor=f, use_ste=ste, **kw) for f in (0.0, 0.5, 0.3, 1.0)}
+            elif order == "construct_switch_use":
+              Q.set_internal_sigmoid(second)
+            else:
+              for o_ in objs.values():
+                _call(o_, xs)
+              Q.set_internal_sigmoid(second)
+            ys = {f: _call(o_, xs) for f, o_ in objs.items()}
+            # fresh objects under the CURRENT setting give the two ends
+            o0 = _call(Q.quantized_relu(qnoise_factor=0.0, use_ste=ste, **kw), xs)
+            o1 = _call(Q.quantized_relu(qnoise_factor=1.0, use_ste=False, **kw), xs)
+            s_np = _sur_relu(kw, xs)
+            key = {"state": "internal_sigmoid", "order": order}
+            det = {"kwargs": kw, "use_ste": ste, "mode_at_construction": first, "mode_at_use": second}
+            if not np.array_equal(o0, s_np):
+              e = int(np.flatnonzero(o0 != s_np)[0])
+              run.violate("f0_returns_surrogate", key, dict(det, x=float(xs[e]), observed=float(o0[e]),
+                                                           expected=float(s_np[e])), mirrored=False)
+              continue
+            for f, y in ys.items():
+              fe = core.frac(np.float32(f))
+              bad = None
+              for e in range(len(xs)):
+                a0, a1, y_i = core.frac(o0[e]), core.frac(o1[e]), core.frac(y[e])
+                if abs(y_i - (a0 + fe * (a1 - a0))) > TOL_REL * (abs(a0) + abs(a1)):
+                  bad = (e, a0 + fe * (a1 - a0))
+                  break
+              if bad is not None:
+                e, want = bad
+                run.violate("interpolates_under_current_process_state", key,
+                            dict(det, f=f, x=float(xs[e]), observed=float(y[e]), expected=float(want),
+                                 out_f0_now=float(o0[e]), out_f1_now=float(o1[e])), mirrored=False)
+                break
+  finally:
+    Q.set_internal_sigmoid("hard")
+
+
 # --------------------------------------------------------------------------- entry
 
 def run(run: core.Run, tier: str):
@@ -1179,11 +2074,32 @@ def run(run: core.Run, tier: str):
       "recurrent_activation, cells, wrappers, nested models, shared objects, quantized_linear), plus every "
       "history up to length 4 (6 in thorough) over {T,E,B,F} for 4 configurations x 3 models; non-trivial = "
       "distinct (configuration, model, history). D: get_quantizers on 13 real models + real model.fit runs "
-      "(1 quick, 4 thorough) on models holding quantizers in every kind of place.")
+      "(1 quick, 4 thorough) on models holding quantizers in every kind of place. E: per knob-bearing class "
+      "(6) x use_ste: 9 history templates (one caller-owned tf.Variable pushed to two or three quantizers, then a "
+      "number update of one of them / an update from a second variable / the caller assigning to the source / "
+      "copying another quantizer's attribute / build(use_variables) / probe calls after every step) x every pair "
+      "of storages of the first two quantizers out of {python number, tf.Variable} x {built, unbuilt}, plus 40 "
+      "(400 thorough) seeded interleavings of length 6-10 over {update from caller variable, update from another "
+      "quantizer's attribute, variable.assign, number update as float / np.float64 / np.float32 / tf.constant, "
+      "update from a fresh variable, build(T/F), use_variables flip, call} on 3 quantizers and 2 variables; "
+      "non-trivial = distinct (class, storages, use_ste, history). A2: the option lattice of every knob-bearing "
+      "class (about 190 configurations: quantized_relu bits/integer x slope in {0, 1/4, 1/2} x is_quantized_clip x "
+      "relu_upper_bound in {none, on-grid, off-grid +0.6 step, off-grid +0.3 step, above the largest code, 0.0, "
+      "np.float32, int 6}; relu_po2 / po2 max_value in {none, 2, 3, 0.3, 1.5} x slope x quadratic_approximation; "
+      "hswish shift x bound; bits / linear symmetric x keep_negative; stochastic rounding outside training; "
+      "use_sigmoid) x use_ste x f in {0, 1/4, 1/2, 3/4, 1, 0.3, 0.9} (+ Variable route for 1/2 and 0.3) on inputs "
+      "b + j*step/32, |j| <= 36, around every bound b + a coarse grid + seeded values; non-trivial = distinct "
+      "(configuration, form, route, factor). F: 11 configurations x use_ste x 2 (thorough 8) seeded histories of 9 "
+      "(14) reconfigurations of ONE object, each followed by a probe call on a tensor of rank 1-5 or through a "
+      "QActivation layer, compared with a fresh twin; 6 classes x use_ste x {0, 1, 1/4, 0.3} x 7 argument forms x "
+      "{constructor, update on python storage, update on Variable storage}; internal sigmoid modes x 3 orders.")
   stream_mix(run, tier, Q, tf, rng)
   stream_storage(run, tier, Q, tf, rng)
   stream_sched(run, tier, Q, tf, rng)
   stream_layers(run, tier, Q, tf, rng)
+  stream_alias(run, tier, Q, tf, rng)
+  stream_lattice(run, tier, Q, tf, rng)
+  stream_reuse(run, tier, Q, tf, rng)
   run.assumptions += [
       "TF eager elementwise float32 kernels (neg, add, sub, mul) are correctly rounded IEEE operations applied "
       "one at a time (device 1); python float arithmetic is IEEE float64",
@@ -1192,4 +2108,9 @@ def run(run: core.Run, tier: str):
       "bit-for-bit tie only)",
       "quantizer objects are modelled by value with an identity tag; an object shared between layers is tracked once",
       "tf.stop_gradient is the identity on values (gradients are property C06)",
+      "a float64 tf.Tensor as qnoise_factor is rejected by TensorFlow's own dtype rule (float32 * float64) and is "
+      "not generated; QNoiseScheduler(log_dir=...) is not exercised",
+      "stream E: a tf.Variable handed to the CONSTRUCTOR (explicit sharing requested by the caller) and mutable "
+      "0-d numpy arrays handed to the update API and later mutated in place by the caller are outside the "
+      "generated histories (see notes/C07.md)",
   ]
